@@ -14,6 +14,10 @@ func panicScope(r *core.Run, entries ...rules.Entry) *rules.Scope {
 		tc := rules.DefaultTermConfig()
 		tc.MinLoops, tc.MinSites = fl[0], fl[1]
 		tc.Positions = r.Prop == "C07" || r.Prop == "C11" // "position inside the offending file" / "positions that lie within the input"
+		if r.Prop == "C07" || r.Prop == "C11" {
+			// "never panics": a stack overflow is fatal, so the parser's input-driven recursion needs a constant bound
+			tc.DepthRels, tc.MinDepthSites = []string{parserRel}, 1
+		}
 		rules.Termination(r, sc, tc)
 	}
 	return sc
